@@ -2413,4 +2413,20 @@ pub mod verif {
     pub fn dial_opts_addresses(opts: &crate::dial_opts::DialOpts) -> Vec<libp2p_core::Multiaddr> {
         opts.get_addresses()
     }
+
+    /// The role override, port use and peer condition a behaviour put into its
+    /// [`DialOpts`](crate::dial_opts::DialOpts).
+    pub fn dial_opts_settings(
+        opts: &crate::dial_opts::DialOpts,
+    ) -> (
+        libp2p_core::Endpoint,
+        libp2p_core::transport::PortUse,
+        crate::dial_opts::PeerCondition,
+    ) {
+        (
+            opts.role_override(),
+            opts.port_use(),
+            opts.peer_condition(),
+        )
+    }
 }
